@@ -21,6 +21,7 @@ func extend(id string, ru Rule, text string) {
 }
 
 func init() {
+	registry["C03"].Explanation += " (R03.8) every code-space (Kraft) sum of a block header is tested for completeness - equality with 1<<15, or from both sides - wherever it is tested for over-subscription, directly or through a helper whose parameter it is passed to; an incomplete code is what compress/flate and zlib reject in the header."
 	extend("C02", Rule{ID: "R02.9", Configs: "all", Run: ruleR02_9},
 		"(R02.9) every end-of-block handler of the inflater decides the next phase by the block's final flag: a store of phaseStreamEnd is behind the edge bfinal set, a store of phaseNewBlock behind the edge bfinal clear or immediately followed by the bfinal test (sibling agreement over all handlers, Go loops and the assembly wrapper).")
 }
@@ -656,4 +657,460 @@ func (p *Program) valueSourcesNamed(v ssa.Value, name string) (ssa.Value, bool) 
 		return root, true
 	}
 	return nil, false
+}
+
+func init() {
+	extend("C13", Rule{ID: "R13.4", Configs: "all", Run: ruleR13_4},
+		"(R13.4) a Reader re-targets ((*bufio.Reader).Reset) only buffers it allocated itself: the receiver field the call is made on is assigned nowhere but from bufio.NewReader/NewReaderSize (or another such field); a field that can also hold the caller's *bufio.Reader must never be Reset - doing so hijacks the caller's object, so the Reader after Reset(src) reads through a buffer somebody else owns and is not a new Reader on src.")
+	extend("C05", Rule{ID: "R05.5", Configs: "all", Run: func(p *Program, r *Report) { ruleR13_4x(p, r, "R05.5") }}, "(R05.5) = R13.4: re-targeting the caller's *bufio.Reader discards what it had buffered beyond the previous stream.")
+}
+
+func ruleR13_4(p *Program, r *Report) { ruleR13_4x(p, r, "R13.4") }
+
+func ruleR13_4x(p *Program, r *Report, id string) {
+	r.Expect(id, 1)
+	// which fields of which named types are assigned a *bufio.Reader that is not a fresh allocation?
+	type fkey struct {
+		n   *types.Named
+		sel string
+	}
+	fresh := func(v ssa.Value) bool {
+		for _, leaf := range p.valueSources(v) {
+			c, ok := leaf.(*ssa.Call)
+			if !ok {
+				return false
+			}
+			f := c.Common().StaticCallee()
+			if !(isFunc(f, "bufio", "NewReader") || isFunc(f, "bufio", "NewReaderSize")) {
+				return false
+			}
+		}
+		return true
+	}
+	type storeInfo struct {
+		st  *ssa.Store
+		own bool
+	}
+	stores := map[fkey][]storeInfo{}
+	for _, fn := range p.Funcs() {
+		if !readerPkg(fn) {
+			continue
+		}
+		for _, b := range fn.Blocks {
+			for _, in := range b.Instrs {
+				st, ok := in.(*ssa.Store)
+				if !ok || !isNamedType(st.Val.Type(), "bufio", "Reader") {
+					continue
+				}
+				root, sel := accessPath(st.Addr)
+				if root == nil || sel == "" {
+					continue
+				}
+				n := derefNamed(root.Type())
+				if n == nil {
+					continue
+				}
+				stores[fkey{n, sel}] = append(stores[fkey{n, sel}], storeInfo{st, false})
+			}
+		}
+	}
+	// a field is "own" when every store into it is a fresh allocation or a load of another own field (fixpoint)
+	own := map[fkey]bool{}
+	for k := range stores {
+		own[k] = true
+	}
+	for changed := true; changed; {
+		changed = false
+		for k, sts := range stores {
+			if !own[k] {
+				continue
+			}
+			for _, si := range sts {
+				ok := fresh(si.st.Val)
+				if !ok {
+					ok = true
+					for _, leaf := range p.valueSources(si.st.Val) {
+						root, sel, isL := fieldLoad(leaf)
+						if isL && root != nil {
+							if n := derefNamed(root.Type()); n != nil && own[fkey{n, sel}] && sel != "" {
+								if _, has := stores[fkey{n, sel}]; has {
+									continue
+								}
+							}
+						}
+						if c, isC := leaf.(*ssa.Call); isC {
+							f := c.Common().StaticCallee()
+							if isFunc(f, "bufio", "NewReader") || isFunc(f, "bufio", "NewReaderSize") {
+								continue
+							}
+						}
+						ok = false
+					}
+				}
+				if !ok {
+					own[k] = false
+					changed = true
+					break
+				}
+			}
+		}
+	}
+	for _, fn := range p.Funcs() {
+		if !readerPkg(fn) {
+			continue
+		}
+		lab := newLabeler()
+		for _, c := range allCalls(fn) {
+			f := c.Common().StaticCallee()
+			if !isMethodOf(f, "bufio", "Reader", "Reset") {
+				continue
+			}
+			key := shortFn(fn) + "|" + lab.get(calleeLabel(c))
+			recvv := c.Common().Args[0]
+			why := ""
+			for _, leaf := range p.valueSources(recvv) {
+				root, sel, isL := fieldLoad(leaf)
+				if isL && root != nil {
+					if n := derefNamed(root.Type()); n != nil {
+						if !own[fkey{n, sel}] {
+							why = "field " + sel + " of " + n.Obj().Name() + " can hold a *bufio.Reader the Reader did not allocate (it is also assigned from a caller-supplied value): Reset re-targets the caller's object, discarding what it had buffered and tying this Reader to a buffer the caller may re-use"
+						}
+						continue
+					}
+				}
+				if fresh(leaf) {
+					continue
+				}
+				why = "re-targets a *bufio.Reader of unknown origin (" + describeValue(leaf) + ")"
+			}
+			r.Check(why == "", id, key, p.InstrPos(c), "only a buffer the Reader allocated itself is re-targeted", why)
+		}
+	}
+}
+
+// ---------------------------------------------------------------- round 4
+
+func init() {
+	extend("C14", Rule{ID: "R14.6", Configs: "all", Run: ruleR14_6},
+		"(R14.6) the sticky error is consulted before anything can report success: every return of a constant nil error from Write, Flush or Close of the three Writer types is dominated by the edge 'sticky error == nil' (or, for Close, 'sticky error == the closed marker'), so a closed flag or an empty-input shortcut tested earlier cannot hide a recorded failure.")
+	extend("C10", Rule{ID: "R10.9", Configs: "all", Run: ruleR10_9},
+		"(R10.9) a flush drains: in the block compressor every return that can report success while a flush is requested is dominated by the edge 'input cursor == end of pending input' (or 'nothing was accumulated'); returns behind '!flush' and returns of a known non-nil error are exempt.")
+	extend("C03", Rule{ID: "R03.9", Configs: "all", Run: ruleR03_9},
+		"(R03.9) the dynamic-header parser compares the number of code lengths it has produced with the declared count before it can succeed: the success exit of readLitDistLens is dominated by the not-greater edge of a comparison between the cursor and an expression of the declared distance count (zero runs advance the cursor by a decoded amount and rely on this test).")
+	extend("C06", Rule{ID: "R06.6", Configs: "all", Run: ruleR06_6},
+		"(R06.6) 32-bit header and trailer fields of gzip/zlib read with Uint32 are never reinterpreted as signed 32-bit values (MTIME after 2038, sizes above 2 GiB).")
+}
+
+func ruleR14_6(p *Program, r *Report) {
+	r.Expect("R14.6", 6)
+	for _, tr := range p.WriterTypes() {
+		if tr.Sticky == "" {
+			continue
+		}
+		for _, opn := range []string{"Write", "Flush", "Close"} {
+			fn := tr.Ops[opn]
+			recv := fn.Params[0]
+			lab := newLabeler()
+			for _, b := range fn.Blocks {
+				for _, in := range b.Instrs {
+					ret, ok := in.(*ssa.Return)
+					if !ok {
+						continue
+					}
+					e := returnErr(ret)
+					if e == nil || !isNil(e) {
+						continue
+					}
+					key := shortFn(fn) + "|" + lab.get("return nil")
+					okFact := false
+					for _, f := range dominatingFacts(ret) {
+						if f.Op != token.EQL || f.Y == nil {
+							continue
+						}
+						for _, pr := range [][2]ssa.Value{{f.X, f.Y}, {f.Y, f.X}} {
+							if !isStickyLoad(pr[0], recv, tr.Sticky) {
+								continue
+							}
+							if isNil(pr[1]) {
+								okFact = true
+							}
+							if g := globalLoad(pr[1]); g != nil && opn == "Close" {
+								okFact = true // the closed marker kept in the sticky field itself
+							}
+						}
+					}
+					r.Check(okFact, "R14.6", key, p.InstrPos(ret), "success is reported only where the sticky error is known to be nil", "this return of nil is not behind the test of ."+tr.Sticky+": a failure recorded earlier would be answered with success")
+				}
+			}
+		}
+	}
+}
+
+func ruleR10_9(p *Program, r *Report) {
+	r.Expect("R10.9", 1)
+	fn := p.Method(deflRel, "dynCompressor", "compressBlock")
+	if fn == nil || len(fn.Params) < 2 {
+		r.Undecided("R10.9", "anchors", "-", "dynCompressor.compressBlock(flush, final) exists", "not found")
+		return
+	}
+	var flush *ssa.Parameter
+	for _, prm := range fn.Params[1:] {
+		if prm.Name() == "flush" {
+			flush = prm
+		}
+	}
+	if flush == nil {
+		flush = fn.Params[1]
+	}
+	lab := newLabeler()
+	for _, b := range fn.Blocks {
+		for _, in := range b.Instrs {
+			ret, ok := in.(*ssa.Return)
+			if !ok {
+				continue
+			}
+			key := shortFn(fn) + "|" + lab.get("return")
+			facts := dominatingFacts(ret)
+			e := returnErr(ret)
+			exempt, drained := false, false
+			for _, f := range facts {
+				// behind !flush
+				if f.Y == nil && f.X == ssa.Value(flush) && f.Op == token.NEQ {
+					exempt = true
+				}
+				if f.Y != nil && f.Op == token.NEQ && e != nil && ((f.X == e && isNil(f.Y)) || (f.Y == e && isNil(f.X))) {
+					exempt = true // a failure is being returned
+				}
+				if f.Y != nil && f.Op == token.EQL {
+					_, s1, ok1 := fieldLoad(f.X)
+					_, s2, ok2 := fieldLoad(f.Y)
+					if ok1 && ok2 && ((s1 == ".idx" && s2 == ".end") || (s1 == ".end" && s2 == ".idx")) {
+						drained = true
+					}
+					if k, isK := constInt(f.Y); isK && k == 0 && ok1 && s1 == ".end" {
+						drained = true
+					}
+				}
+			}
+			switch {
+			case exempt:
+				r.OK("R10.9", key, p.InstrPos(ret), "return without a flush pending, or of a failure")
+			default:
+				r.Check(drained, "R10.9", key, p.InstrPos(ret), "with a flush requested the compressor returns success only when all pending input has been encoded", "this return is reachable with flush set and is not behind '.idx == .end': Flush would write its marker and report success while accepted data is still unencoded")
+			}
+		}
+	}
+}
+
+func ruleR03_9(p *Program, r *Report) {
+	r.Expect("R03.9", 1)
+	fn := p.Method(flateRel, "inflate", "readLitDistLens")
+	if fn == nil {
+		r.Undecided("R03.9", "anchors", "-", "inflate.readLitDistLens exists", "not found")
+		return
+	}
+	var hdist *ssa.Parameter
+	for _, prm := range fn.Params {
+		if prm.Name() == "hdist" {
+			hdist = prm
+		}
+	}
+	if hdist == nil {
+		r.Undecided("R03.9", "anchors", "-", "readLitDistLens has the parameter hdist", "not found")
+		return
+	}
+	// success exit: a store of a nil error / return whose error may be nil, reached without passing an error assignment.
+	// The function funnels through END; we look at every instruction that makes the success outcome: the block in which
+	// the loop's normal exit continues. Decided as: some comparison cursor > E (E mentions hdist) exists whose
+	// not-greater edge dominates every path from the loop exit to a return carrying a possibly-nil error that does
+	// not pass a store/phi edge of a non-nil sentinel.
+	lab := newLabeler()
+	n := 0
+	for _, b := range fn.Blocks {
+		for _, in := range b.Instrs {
+			ret, ok := in.(*ssa.Return)
+			if !ok {
+				continue
+			}
+			e := returnErr(ret)
+			if e == nil {
+				continue
+			}
+			// each nil leaf of the returned error, with the block it arrives from
+			type arrival struct{ from *ssa.BasicBlock }
+			var nilArrivals []*ssa.BasicBlock
+			if phi, ok := e.(*ssa.Phi); ok {
+				for i, edge := range phi.Edges {
+					if isNil(edge) {
+						nilArrivals = append(nilArrivals, phi.Block().Preds[i])
+					}
+				}
+			} else if isNil(e) {
+				nilArrivals = append(nilArrivals, ret.Block())
+			}
+			for _, from := range nilArrivals {
+				n++
+				key := shortFn(fn) + "|" + lab.get("success exit")
+				okCmp := false
+				last := from.Instrs[len(from.Instrs)-1]
+				for _, f := range dominatingFacts(last) {
+					if f.Y == nil {
+						continue
+					}
+					x, y := f.X, f.Y
+					switch f.Op {
+					case token.LEQ:
+					case token.GEQ:
+						x, y = y, x
+					default:
+						continue
+					}
+					// x <= y : x the cursor (a phi), y mentions hdist
+					ly := linearize(y)
+					if !ly.ok || ly.terms["param:"+hdist.Name()] == 0 {
+						continue
+					}
+					if _, isPhi := stripConv(x).(*ssa.Phi); isPhi {
+						okCmp = true
+					}
+				}
+				r.Check(okCmp, "R03.9", key, p.InstrPos(last), "the header parser succeeds only after comparing the number of code lengths produced with the declared count", "the success exit is not behind 'cursor <= litLen+hdist+1': a zero run (symbols 17/18) that runs past the declared count is accepted")
+			}
+		}
+	}
+	if n == 0 {
+		r.Undecided("R03.9", shortFn(fn)+"|success exit", p.Pos(fn.Pos()), "readLitDistLens has a success exit", "no return of a possibly-nil error found")
+	}
+}
+
+func ruleR06_6(p *Program, r *Report) {
+	r.Expect("R06.6", 3)
+	for _, rel := range []string{gzipRel, zlibRel} {
+		sp := p.Pkg(rel)
+		for _, fn := range p.Funcs() {
+			if fn.Pkg != sp {
+				continue
+			}
+			lab := newLabeler()
+			for _, c := range allCalls(fn) {
+				f := c.Common().StaticCallee()
+				if f == nil || f.Name() != "Uint32" || f.Pkg == nil || f.Pkg.Pkg.Path() != "encoding/binary" {
+					continue
+				}
+				v := c.Value()
+				if v == nil {
+					continue
+				}
+				key := shortFn(fn) + "|" + lab.get("Uint32 field")
+				why := ""
+				var walk func(x ssa.Value, depth int)
+				walk = func(x ssa.Value, depth int) {
+					if depth > 4 || x.Referrers() == nil {
+						return
+					}
+					for _, ref := range *x.Referrers() {
+						if cv, ok := ref.(*ssa.Convert); ok {
+							if b, ok := cv.Type().Underlying().(*types.Basic); ok && (b.Kind() == types.Int32 || b.Kind() == types.Int16 || b.Kind() == types.Int8) {
+								why = "converted to " + cv.Type().String() + ": values with the top bit set become negative"
+							}
+							walk(cv, depth+1)
+						}
+						if phi, ok := ref.(*ssa.Phi); ok {
+							walk(phi, depth+1)
+						}
+					}
+				}
+				walk(v, 0)
+				r.Check(why == "", "R06.6", key, p.InstrPos(c), "a 32-bit container field keeps its unsigned value", why)
+			}
+		}
+	}
+}
+
+func init() {
+	extend("C18", Rule{ID: "R18.12", Configs: "asm", Run: ruleR18_12},
+		"(R18.12) the look-back test of the assembly decode loop agrees with the Go loop's in strictness: every conditional jump into the exit that reports errorNoInvalidLookback is a strict comparison (JL/JG/JB/JA family), as the Go loop rejects only 'produced < distance' - a match reaching back to the very first byte (distance == produced) is valid.")
+}
+
+func ruleR18_12(p *Program, r *Report) {
+	r.Expect("R18.12", 1)
+	if asmLoadFailures(p, r, "R18.12") {
+		return
+	}
+	lookback, ok := constOf(p, flateRel, "errorNoInvalidLookback")
+	if !ok {
+		r.Undecided("R18.12", "anchors", "-", "errorNoInvalidLookback exists", "not found")
+		return
+	}
+	// the Go sibling: strictness of the comparison that leads to errInvalidLookBack
+	goStrict := false
+	if fn := p.Func(flateRel, "decodeHuffmanLargeLoop"); fn != nil {
+		for _, b := range fn.Blocks {
+			for _, in := range b.Instrs {
+				u, ok := in.(*ssa.UnOp)
+				if !ok || u.Op != token.MUL {
+					continue
+				}
+				if g, ok := u.X.(*ssa.Global); !ok || g.Name() != "errInvalidLookBack" {
+					continue
+				}
+				for _, f := range dominatingFacts(in) {
+					if f.Y != nil && (f.Op == token.LSS || f.Op == token.GTR) {
+						goStrict = true
+					}
+				}
+			}
+		}
+	}
+	strict := map[string]bool{"JL": true, "JLT": true, "JG": true, "JGT": true, "JB": true, "JCS": true, "JLO": true, "JA": true, "JHI": true}
+	loose := map[string]bool{"JLE": true, "JGE": true, "JBE": true, "JLS": true, "JAE": true, "JCC": true, "JHS": true, "JNA": true, "JNB": true}
+	for _, u := range p.Asm().Units {
+		if u.Text.Name != "decodeHuffmanAsmArchV3" {
+			continue
+		}
+		t := u.Text
+		// exit blocks: labelled instructions from which `MOVQ $lookback, AX` is reached before any jump
+		exits := map[int]bool{}
+		for i, in := range t.Instrs {
+			if len(in.Labels) == 0 {
+				continue
+			}
+			for j := i; j < len(t.Instrs) && j < i+6; j++ {
+				x := t.Instrs[j]
+				if x.Mnem == "MOVQ" && len(x.Ops) == 2 && x.Ops[0].Kind == OpImm && x.Ops[0].Imm == lookback && x.Ops[1].Kind == OpReg && baseReg(x.Ops[1].Reg) == "AX" {
+					exits[i] = true
+				}
+				if asmJumps[x.Mnem] || x.Mnem == "RET" {
+					break
+				}
+			}
+		}
+		n := 0
+		lab := newLabeler()
+		for _, in := range t.Instrs {
+			if !asmJumps[in.Mnem] || in.Mnem == "JMP" || len(in.Ops) != 1 || in.Ops[0].Kind != OpLabel {
+				continue
+			}
+			tgt, ok := t.labelIdx[in.Ops[0].Name]
+			if !ok || !exits[tgt] {
+				continue
+			}
+			n++
+			key := t.Name + "|" + lab.get("jump to "+in.Ops[0].Name)
+			pos := t.File + ":" + itoa(in.Line)
+			switch {
+			case strict[in.Mnem] && goStrict:
+				r.OK("R18.12", key, pos, "the assembly rejects a look-back distance by a strict comparison, like the Go loop")
+			case loose[in.Mnem]:
+				r.Fail("R18.12", key, pos, "the assembly rejects a look-back distance by a strict comparison, like the Go loop", in.Mnem+" also rejects equality: a match that reaches back exactly to the first byte produced is valid and the Go loop accepts it")
+			case !goStrict:
+				r.Undecided("R18.12", key, pos, "the Go loop's look-back test is a strict comparison", "not found in decodeHuffmanLargeLoop")
+			default:
+				r.Undecided("R18.12", key, pos, "the jump into the look-back exit is a comparison jump", "unrecognised condition "+in.Mnem)
+			}
+		}
+		if n == 0 {
+			r.Undecided("R18.12", t.Name+"|look-back exit", t.File, "a conditional jump into the errorNoInvalidLookback exit exists", "not found")
+		}
+	}
 }
